@@ -35,6 +35,13 @@ Definition s_addressfamily : str := [97;100;100;114;101;115;115;102;97;109;105;1
 Definition s_host : str := [104;111;115;116].
 Definition s_match : str := [109;97;116;99;104].
 Definition s_p22 : str := [50;50].
+Definition s_canonicaldomains : str := [99;97;110;111;110;105;99;97;108;100;111;109;97;105;110;115].
+Definition s_canonicalizefallbacklocal : str := [99;97;110;111;110;105;99;97;108;105;122;101;102;97;108;108;98;97;99;107;108;111;99;97;108].
+Definition s_yes : str := [121;101;115].
+Definition s_always : str := [97;108;119;97;121;115].
+Definition s_match_exec : str := [109;97;116;99;104;45;101;120;101;99].
+Definition s_eq : str := [101;113].
+Definition s_ok : str := [111;107].
 
 (* ---- option dictionaries: insertion ordered, like Python dicts -------------------------- *)
 Inductive value := VNone | VStr (s : str) | VList (l : list str).
@@ -123,98 +130,10 @@ Record env := Env {
   e_gethostname : str;    (* socket.gethostname() *)
   e_fqdn : str;           (* socket.getfqdn() *)
   e_home : str;           (* os.path.expanduser("~") *)
-  e_hash : str -> str     (* sha1(..).hexdigest() — library primitive *)
+  e_hash : str -> str;    (* sha1(..).hexdigest() — library primitive *)
+  e_resolves : str -> bool; (* socket.gethostbyname(name) succeeds — DNS *)
+  e_exec : str -> bool    (* invoke.run(cmd, hide="stdout", warn=True).ok — local command *)
 }.
-
-(* ---- Match criteria ------------------------------------------------------------------------ *)
-Inductive ctype := CAll | CCanonical | CFinal | CHost | COrigHost | CUser | CLocalUser.
-Record crit := Crit { c_type : ctype; c_neg : bool; c_param : str }.
-
-Definition should_fail (would_pass neg : bool) : bool := if neg then would_pass else negb would_pass.
-
-(* `options.get(k, None) or default` *)
-Definition or_else (o : option value) (d : str) : str :=
-  match o with
-  | Some (VStr (x :: s)) => x :: s
-  | _ => d
-  end.
-
-Fixpoint dm_from (matched : bool) (cs : list crit) (e : env) (target : str)
-         (canonical final : bool) (opts : dict) : bool :=
-  match cs with
-  | [] => matched
-  | c :: r =>
-      let continue := dm_from true r e target canonical final opts in
-      let pats := split_on 44 (c_param c) in
-      match c_type c with
-      | CCanonical => if should_fail canonical (c_neg c) then false else continue
-      | CAll => true
-      | CFinal => if should_fail final (c_neg c) then false else continue
-      | CHost =>
-          if should_fail (pattern_matches pats (or_else (dget opts s_hostname) target)) (c_neg c)
-          then false else continue
-      | COrigHost =>
-          if should_fail (pattern_matches pats target) (c_neg c) then false else continue
-      | CUser =>
-          if should_fail (pattern_matches pats (or_else (dget opts s_user) (e_user e))) (c_neg c)
-          then false else continue
-      | CLocalUser =>
-          if should_fail (pattern_matches pats (e_user e)) (c_neg c) then false else continue
-      end
-  end.
-Definition does_match cs e target canonical final opts : bool :=
-  dm_from false cs e target canonical final opts.
-
-(* ---- blocks, _lookup ----------------------------------------------------------------------- *)
-Inductive header := HHost (ps : list str) | HMatch (cs : list crit).
-Record block := Blk { b_hdr : header; b_body : list (str * str) }.
-
-Definition applies (e : env) (target : str) (canonical final : bool) (opts : dict) (b : block) : bool :=
-  match b_hdr b with
-  | HHost ps => pattern_matches ps target
-  | HMatch cs => does_match cs e target canonical final opts
-  end.
-
-Definition as_list (v : value) : list str := match v with VList l => l | _ => [] end.
-Definition get_list (d : dict) (k : str) : list str :=
-  match dget d k with Some v => as_list v | None => [] end.
-
-(* current.extend(x for x in value if x not in current) *)
-Fixpoint dedup_extend (cur new : list str) : list str :=
-  match new with
-  | [] => cur
-  | x :: r => if mem_str x cur then dedup_extend cur r else dedup_extend (cur ++ [x]) r
-  end.
-
-(* repaired loop body of _lookup *)
-Definition merge_kv (opts : dict) (kv : str * value) : dict :=
-  let (k, v) := kv in
-  if zlist_eqb k s_identityfile then
-    dset opts k (VList (dedup_extend (get_list opts k) (as_list v)))
-  else if dmem opts k then opts else dset opts k v.
-
-(* loop body before the repair: the first block's list is copied verbatim *)
-Definition merge_kv_v0 (opts : dict) (kv : str * value) : dict :=
-  let (k, v) := kv in
-  if dmem opts k then
-    if zlist_eqb k s_identityfile
-    then dset opts k (VList (dedup_extend (get_list opts k) (as_list v)))
-    else opts
-  else dset opts k v.
-
-Definition apply_block (e : env) (target : str) (canonical final : bool) (opts : dict) (b : block) : dict :=
-  if applies e target canonical final opts b
-  then fold_left merge_kv (block_config (b_body b)) opts
-  else opts.
-Definition pass (e : env) (target : str) (canonical final : bool) (cfg : list block) (opts : dict) : dict :=
-  fold_left (apply_block e target canonical final) cfg opts.
-
-Definition apply_block_v0 (e : env) (target : str) (canonical final : bool) (opts : dict) (b : block) : dict :=
-  if applies e target canonical final opts b
-  then fold_left merge_kv_v0 (block_config (b_body b)) opts
-  else opts.
-Definition pass_v0 e target canonical final (cfg : list block) (opts : dict) : dict :=
-  fold_left (apply_block_v0 e target canonical final) cfg opts.
 
 (* ---- _tokenize / _expand_variables ---------------------------------------------------------- *)
 Definition allowed_tokens (key : str) : list str :=
@@ -313,6 +232,100 @@ Fixpoint expand_go_v0 (e : env) (target : str) (done todo : dict) : dict :=
   end.
 Definition expand_v0 (e : env) (target : str) (d : dict) : dict := expand_go_v0 e target [] d.
 
+(* ---- Match criteria ------------------------------------------------------------------------ *)
+Inductive ctype := CAll | CCanonical | CFinal | CHost | COrigHost | CUser | CLocalUser | CExec.
+Record crit := Crit { c_type : ctype; c_neg : bool; c_param : str }.
+
+Definition should_fail (would_pass neg : bool) : bool := if neg then would_pass else negb would_pass.
+
+(* `options.get(k, None) or default` *)
+Definition or_else (o : option value) (d : str) : str :=
+  match o with
+  | Some (VStr (x :: s)) => x :: s
+  | _ => d
+  end.
+
+Fixpoint dm_from (matched : bool) (cs : list crit) (e : env) (target : str)
+         (canonical final : bool) (opts : dict) : bool :=
+  match cs with
+  | [] => matched
+  | c :: r =>
+      let continue := dm_from true r e target canonical final opts in
+      let pats := split_on 44 (c_param c) in
+      match c_type c with
+      | CCanonical => if should_fail canonical (c_neg c) then false else continue
+      | CAll => true
+      | CFinal => if should_fail final (c_neg c) then false else continue
+      | CHost =>
+          if should_fail (pattern_matches pats (or_else (dget opts s_hostname) target)) (c_neg c)
+          then false else continue
+      | COrigHost =>
+          if should_fail (pattern_matches pats target) (c_neg c) then false else continue
+      | CUser =>
+          if should_fail (pattern_matches pats (or_else (dget opts s_user) (e_user e))) (c_neg c)
+          then false else continue
+      | CLocalUser =>
+          if should_fail (pattern_matches pats (e_user e)) (c_neg c) then false else continue
+      | CExec =>
+          (* the command is tokenised against the options obtained so far (key "match-exec") *)
+          if should_fail (e_exec e (tokenize e opts target s_match_exec (c_param c))) (c_neg c)
+          then false else continue
+      end
+  end.
+Definition does_match cs e target canonical final opts : bool :=
+  dm_from false cs e target canonical final opts.
+
+(* ---- blocks, _lookup ----------------------------------------------------------------------- *)
+Inductive header := HHost (ps : list str) | HMatch (cs : list crit).
+Record block := Blk { b_hdr : header; b_body : list (str * str) }.
+
+Definition applies (e : env) (target : str) (canonical final : bool) (opts : dict) (b : block) : bool :=
+  match b_hdr b with
+  | HHost ps => pattern_matches ps target
+  | HMatch cs => does_match cs e target canonical final opts
+  end.
+
+Definition as_list (v : value) : list str := match v with VList l => l | _ => [] end.
+Definition get_list (d : dict) (k : str) : list str :=
+  match dget d k with Some v => as_list v | None => [] end.
+
+(* current.extend(x for x in value if x not in current) *)
+Fixpoint dedup_extend (cur new : list str) : list str :=
+  match new with
+  | [] => cur
+  | x :: r => if mem_str x cur then dedup_extend cur r else dedup_extend (cur ++ [x]) r
+  end.
+
+(* repaired loop body of _lookup *)
+Definition merge_kv (opts : dict) (kv : str * value) : dict :=
+  let (k, v) := kv in
+  if zlist_eqb k s_identityfile then
+    dset opts k (VList (dedup_extend (get_list opts k) (as_list v)))
+  else if dmem opts k then opts else dset opts k v.
+
+(* loop body before the repair: the first block's list is copied verbatim *)
+Definition merge_kv_v0 (opts : dict) (kv : str * value) : dict :=
+  let (k, v) := kv in
+  if dmem opts k then
+    if zlist_eqb k s_identityfile
+    then dset opts k (VList (dedup_extend (get_list opts k) (as_list v)))
+    else opts
+  else dset opts k v.
+
+Definition apply_block (e : env) (target : str) (canonical final : bool) (opts : dict) (b : block) : dict :=
+  if applies e target canonical final opts b
+  then fold_left merge_kv (block_config (b_body b)) opts
+  else opts.
+Definition pass (e : env) (target : str) (canonical final : bool) (cfg : list block) (opts : dict) : dict :=
+  fold_left (apply_block e target canonical final) cfg opts.
+
+Definition apply_block_v0 (e : env) (target : str) (canonical final : bool) (opts : dict) (b : block) : dict :=
+  if applies e target canonical final opts b
+  then fold_left merge_kv_v0 (block_config (b_body b)) opts
+  else opts.
+Definition pass_v0 e target canonical final (cfg : list block) (opts : dict) : dict :=
+  fold_left (apply_block_v0 e target canonical final) cfg opts.
+
 (* ---- lookup --------------------------------------------------------------------------------- *)
 Definition excluded_key (k : str) : bool :=
   zlist_eqb k s_canonicalizehostname || zlist_eqb k s_canonicalizemaxdots ||
@@ -336,6 +349,92 @@ Definition lookup (e : env) (cfg : list block) (host : str) : option dict :=
   | Some raw => Some (expand e host raw)
   | None => None
   end.
+
+(* ---- lookup with canonicalisation ------------------------------------------------------------- *)
+Definition excluded_key2 (k : str) : bool :=
+  zlist_eqb k s_addressfamily || zlist_eqb k s_host || zlist_eqb k s_match.
+Definition in_fragment2 (cfg : list block) : bool :=
+  forallb (fun b => forallb (fun kv => negb (excluded_key2 (fst kv))) (b_body b)) cfg.
+
+(* str.split() : on runs of blanks / tabs *)
+Fixpoint split_ws_go (cur : str) (s : str) : list str :=
+  match s with
+  | [] => match cur with [] => [] | _ => [rev cur] end
+  | x :: r => if (x =? 32) || (x =? 9)
+              then match cur with [] => split_ws_go [] r | _ => rev cur :: split_ws_go [] r end
+              else split_ws_go (x :: cur) r
+  end.
+Definition split_ws (s : str) : list str := split_ws_go [] s.
+
+(* int(v) for a string of ASCII digits (anything else is outside the fragment) *)
+Fixpoint parse_digits_go (acc : Z) (s : str) : option Z :=
+  match s with
+  | [] => Some acc
+  | x :: r => if (48 <=? x) && (x <=? 57) then parse_digits_go (acc * 10 + (x - 48)) r else None
+  end.
+Definition parse_digits (s : str) : option Z :=
+  match s with [] => None | _ => parse_digits_go 0 s end.
+
+Definition canon_on (o : dict) : bool :=
+  match dget o s_canonicalizehostname with
+  | Some (VStr v) => zlist_eqb v s_yes || zlist_eqb v s_always
+  | _ => false
+  end.
+Definition maxdots (o : dict) : option Z :=
+  match dget o s_canonicalizemaxdots with
+  | None => Some 1
+  | Some (VStr v) => parse_digits v
+  | Some _ => None
+  end.
+Definition count_dots (h : str) : Z := Z.of_nat (length (filter (fun c => c =? 46) h)).
+
+(* SSHConfig.canonicalize: the first domain under which the name resolves *)
+Definition canonicalize (e : env) (host : str) (o : dict) (domains : list str) : result str :=
+  match find (fun d => e_resolves e (host ++ 46 :: d)) domains with
+  | Some d => Ok (host ++ 46 :: d)
+  | None =>
+      match dget o s_canonicalizefallbacklocal with
+      | None => Ok host
+      | Some (VStr v) => if zlist_eqb v s_yes then Ok host else Raise SSHExc   (* CouldNotCanonicalize *)
+      | Some _ => Raise SSHExc
+      end
+  end.
+
+(* the second (final) pass: under name t, canonical or not.  In the canonical re-lookup HostName is
+   overwritten with t before the blocks are walked again; every other option of the first pass is kept *)
+Definition relookup (e : env) (cfg : list block) (host t : str) (c : bool) : dict :=
+  pass e t c true cfg
+       (if c then dset (first_pass e cfg host) s_hostname (VStr t) else first_pass e cfg host).
+
+Inductive plan := PlanPlain | PlanCanon (t : str) | PlanExn (x : exn) | PlanOut.
+Definition plan_of (e : env) (cfg : list block) (host : str) : plan :=
+  let o1 := first_pass e cfg host in
+  match maxdots o1 with
+  | None => PlanOut
+  | Some md =>
+      if canon_on o1 && (count_dots host <=? md) then
+        match dget o1 s_canonicaldomains with
+        | None => PlanExn KeyErr                 (* options["canonicaldomains"] *)
+        | Some (VStr ds) =>
+            match canonicalize e host o1 (split_ws ds) with
+            | Ok t => PlanCanon t
+            | Raise x => PlanExn x
+            end
+        | Some _ => PlanOut
+        end
+      else PlanPlain
+  end.
+
+Inductive outcome := Out (d : dict) | Exn (x : exn) | OutOfFragment.
+Definition lookup_full (e : env) (cfg : list block) (host : str) : outcome :=
+  if in_fragment2 cfg then
+    match plan_of e cfg host with
+    | PlanPlain => Out (expand e host (relookup e cfg host host false))
+    | PlanCanon t => Out (expand e t (relookup e cfg host t true))
+    | PlanExn x => Exn x
+    | PlanOut => OutOfFragment
+    end
+  else OutOfFragment.
 
 (* parse: the implicit global block comes first *)
 Definition parsed (global : list (str * str)) (blocks : list block) : list block :=
@@ -402,7 +501,12 @@ Definition keep (o alt : option value) : option value :=
 
 (* criteria that may depend on the pass (final) but never on the options obtained so far *)
 Definition optfree_crit (c : crit) : bool :=
-  match c_type c with CHost | CUser => false | _ => true end.
+  match c_type c with CHost | CUser | CExec => false | _ => true end.
+Definition exec_free_block (b : block) : bool :=
+  match b_hdr b with
+  | HHost _ => true
+  | HMatch cs => forallb (fun c => match c_type c with CExec => false | _ => true end) cs
+  end.
 Definition optfree_block (b : block) : bool :=
   match b_hdr b with HHost _ => true | HMatch cs => forallb optfree_crit cs end.
 (* first block, in file order, that applies in the given pass and sets k *)
@@ -512,14 +616,25 @@ Definition toyhash (s : str) : str :=
   let h := fold_left (fun h b => (h * 31 + b) mod 4294967296) s 7 in
   map (fun i => hexdigit ((h / 16 ^ i) mod 16)) [7; 6; 5; 4; 3; 2; 1; 0].
 
-Definition mkenv (t : str * str * str * str) : env :=
-  let '(u, gh, fq, home) := t in Env u gh fq home toyhash.
+(* stub installed as paramiko.config.invoke by the harness: `eq A B` succeeds iff A = B, `ok ...`
+   succeeds, everything else fails *)
+Definition exec_stub (cmd : str) : bool :=
+  match split_ws cmd with
+  | w :: a :: b :: [] => if zlist_eqb w s_eq then zlist_eqb a b else zlist_eqb w s_ok
+  | w :: _ => zlist_eqb w s_ok
+  | [] => false
+  end.
 
-Definition run_lookup (c : (str * str * str * str) * list (str * str) * list block * str) : list Z :=
+Definition envt := (str * str * str * str * list str)%type.
+Definition mkenv (t : envt) : env :=
+  let '(u, gh, fq, home, res) := t in Env u gh fq home toyhash (fun n => mem_str n res) exec_stub.
+
+Definition run_lookup (c : envt * list (str * str) * list block * str) : list Z :=
   let '(t, global, blocks, host) := c in
-  match lookup (mkenv t) (parsed global blocks) host with
-  | Some d => 0 :: enc_dict d
-  | None => [-1]
+  match lookup_full (mkenv t) (parsed global blocks) host with
+  | Out d => 0 :: enc_dict d
+  | Exn x => [exn_code x]
+  | OutOfFragment => [-1]
   end.
 
 Definition run_hostnames (c : list (str * str) * list block) : list Z :=
@@ -539,7 +654,7 @@ Definition norm_block (d : dict) : dict :=
                  then (fst kv, VList (dedup_extend [] (as_list (snd kv)))) else kv) d.
 
 (* one case per config: the parsed dictionary of every block, get_hostnames, then one lookup per host *)
-Definition run_config (c : (str * str * str * str) * list (str * str) * list block * list str) : list Z :=
+Definition run_config (c : envt * list (str * str) * list block * list str) : list Z :=
   let '(t, global, blocks, hosts) := c in
   let hn := run_hostnames (global, blocks) in
   flat_map (fun b => let r := enc_dict (norm_block (block_config (b_body b))) in zlen r :: r) (parsed global blocks) ++
@@ -567,7 +682,7 @@ Definition unz_block (zb : zhdr * list (Z * Z)) : block :=
        | ZHost ps => HHost (map unz ps)
        | ZMatch cs => HMatch (map (fun c => Crit (fst (fst c)) (snd (fst c)) (unz (snd c))) cs)
        end) (unz_body (snd zb)).
-Definition run_config_z (c : (Z * Z * Z * Z) * list (Z * Z) * list (zhdr * list (Z * Z)) * list Z) : list Z :=
-  let '((u, gh, fq, home), global, blocks, hosts) := c in
-  run_config ((unz u, unz gh, unz fq, unz home), unz_body global, map unz_block blocks, map unz hosts).
+Definition run_config_z (c : (Z * Z * Z * Z * list Z) * list (Z * Z) * list (zhdr * list (Z * Z)) * list Z) : list Z :=
+  let '((u, gh, fq, home, res), global, blocks, hosts) := c in
+  run_config ((unz u, unz gh, unz fq, unz home, map unz res), unz_body global, map unz_block blocks, map unz hosts).
 Definition run_match_z (c : list Z * Z) : list Z := run_match (map unz (fst c), unz (snd c)).
